@@ -107,7 +107,7 @@ fn gen_program(t: &mut Tape, ncalls: usize) -> Vec<Exch> {
 }
 
 fn fault_kinds() -> usize {
-    9
+    10
 }
 
 fn make_fault(kind: usize, at: usize, t: &mut Tape) -> Fault {
@@ -120,7 +120,8 @@ fn make_fault(kind: usize, at: usize, t: &mut Tape) -> Fault {
         5 => Fault::UnknownMethod { at },
         6 => Fault::WrongTypes { at },
         7 => Fault::WrongShape { at },
-        _ => Fault::Oversize { at, len: C09_LIMIT + 300 },
+        8 => Fault::Oversize { at, len: C09_LIMIT + 300 },
+        _ => Fault::WriteGlitch { kth: at },
     }
 }
 
@@ -239,7 +240,9 @@ fn gen_scenario(kind: Kind, w: &mut W) -> Scenario {
                 }
                 let mut faults = Vec::new();
                 if kind == Kind::C10 && t.draw(5) == 4 {
-                    faults.push(Fault::WriteError { kth: t.draw(6) });
+                    let kth = t.draw(6);
+                    // (a failure that would not repeat if the write were tried again, one time in three)
+                    faults.push(if t.draw(3) == 2 { Fault::WriteGlitch { kth } } else { Fault::WriteError { kth } });
                 }
                 // C08: one scripted client in five ends its script with a message the service
                 // cannot decode; every call in front of it is still owed its answer
@@ -504,7 +507,7 @@ impl Prop for ServerProp {
             let mut w = world.borrow_mut();
             let mask = match w.tape.draw(3) {
                 0 | 1 => 0,
-                _ => 1 + w.tape.draw(31) as u32,
+                _ => 1 + w.tape.draw(63) as u32,
             };
             crate::server_world::set_call_spelling(mask);
             if mask != 0 {
@@ -731,7 +734,21 @@ impl Prop for ServerProp {
                 }
                 // Whatever ends a connection, a call the service *did* handle on it is owed its
                 // answer as long as the client's transport accepts writes.
-                let no_write_fault = !spec.faults.iter().any(|f| matches!(f, Fault::WriteError { .. }));
+                // A write that failed once: the connection may be dropped there (nothing owed
+                // afterwards) or the write may be retried, but what arrives is still the reference
+                // sequence from its beginning - nothing twice, nothing skipped, nothing reordered.
+                if spec.faults.iter().any(|f| matches!(f, Fault::WriteGlitch { .. })) {
+                    let n = frames.len().min(reference.len());
+                    if frames.len() > reference.len() || frames[..n] != reference[..n] {
+                        let first_diff = frames.iter().zip(reference.iter()).position(|(a, b)| a != b).unwrap_or(n);
+                        return Err((
+                            format!("{id}/wrong-frames-around-transient-write-failure"),
+                            format!("client {} (faults {:?}): received {} frames that are not a prefix of the reference ({}); first difference at frame {first_diff}: got {:?}, expected {:?}", spec.cid, spec.faults, frames.len(), reference.len(), frames.get(first_diff), reference.get(first_diff)),
+                        ));
+                    }
+                    world.borrow_mut().stat("probe.transient_write_failure_checked");
+                }
+                let no_write_fault = !spec.faults.iter().any(|f| matches!(f, Fault::WriteError { .. } | Fault::WriteGlitch { .. }));
                 if no_write_fault {
                     let h = handled.len();
                     let want_handled: Vec<u32> = (0..h as u32).collect();
@@ -824,6 +841,7 @@ impl Prop for ServerProp {
                         Fault::EofMidBurst { .. } => "fault.eof_mid_burst",
                         Fault::ReadError { .. } => "fault.read_error_scripted",
                         Fault::WriteError { .. } => "fault.write_error_scripted",
+                        Fault::WriteGlitch { .. } => "fault.transient_write_error_scripted",
                         Fault::UnknownMethod { .. } => "fault.unknown_method",
                         Fault::WrongTypes { .. } => "fault.wrong_parameter_types",
                         Fault::WrongShape { .. } => "fault.wrong_shape_json",
